@@ -198,6 +198,24 @@ def check(case):
                     fails.append(('structure:geometry-number', 'row %d where pulse %d expected' % (row['no'], rp.idx + 1)))
                 for i in range(3):
                     cmpv('geometry:point', row['p'][i], rp.pt[i], True)
+                # CONNECTION columns END1 / END2 of the pulse row: the tag of the object each half lies on, negative
+                # where that half runs against its object (like ends joined) or is the image half of a ground
+                # pulse, 0 where the half ends at a free end / at the earliest end of a junction
+                n_ = len(o['segs']) - 1
+                tg_ = lambda w__: topo.objs[w__]['tag']
+                first_of = lambda e__: (w_, e__) not in topo.grounded and topo.junctions[topo.junc_of[(w_, e__)]][0] == (w_, e__)
+                if rp.kind == 'gnd':
+                    want_cc = [-o['tag'], o['tag']] if rp.gnd_end == 0 else [o['tag'], -o['tag']]
+                else:
+                    want_cc = [lg[2] * tg_(lg[0]) for lg in rp.legs]
+                    for k_, lg in enumerate(rp.legs):
+                        if lg[0] == w_ and ((lg[1] == 0 and k_ == 0 and first_of(0)) or (lg[1] == n_ - 1 and k_ == 1 and first_of(1))):
+                            want_cc[k_] = 0
+                closed_ = any((w_, e__) not in topo.grounded and [x[0] for x in topo.junctions[topo.junc_of[(w_, e__)]]].count(w_) > 1
+                              for e__ in (0, 1))
+                if [row['c1'], row['c2']] != want_cc and not closed_:
+                    fails.append(('geometry:connection-columns:' + rp.kind, 'pulse %d of tag %d prints %r, expected %r'
+                                  % (rp.idx + 1, o['tag'], [row['c1'], row['c2']], want_cc)))
     # sources listing
     srcs = case['sources']
     if rep['n_sources'] != len(srcs) or len(rep['source_data']) != len(srcs):
